@@ -59,6 +59,17 @@ def concat3(wa=2, wb=1, wc=3):
 
 
 @design
+def concat_many(n=11, w=22):
+    """concatenations with many operands (n single wires; every other bit of a w-bit wire, which
+    one_bit_selects turns into a w/2-operand concat)"""
+    ios = _io([w] + [1 + (i % 2) for i in range(n)])
+    a, bits = ios[0], ios[1:]
+    _out(pyrtl.concat(*bits), 'out0')
+    _out(a[::2], 'out1')
+    _out(a[1::3], 'out2')
+
+
+@design
 def slices(w=5):
     a, = _io([w])
     _out(a[1:w - 1] if w > 2 else a[0], 'out0')
@@ -243,6 +254,23 @@ def mem_feeds_logic(aw=2, dw=3):
     hidden = (wd + 1)[:dw]
     m[wa] <<= pyrtl.MemBlock.EnabledWrite(hidden ^ wd, we & (wa != 0))
     _out(m[ra])
+
+
+@design
+def mem_chain(aw=1, dw=2, stages=3):
+    """memories chained through their write ports: stage k+1 is written with what is read from stage k, only
+    the last stage reaches an Output (liveness of the upstream memories goes through the write ports)"""
+    ios = _io([aw, dw, 1] + [aw] * stages)
+    wa, wd, we = ios[:3]
+    addrs = ios[3:]
+    prev = wd
+    mems = []
+    for k in range(stages):
+        m = pyrtl.MemBlock(bitwidth=dw, addrwidth=aw, name='stage%d' % k, asynchronous=True)
+        m[wa if k == 0 else addrs[k - 1]] <<= pyrtl.MemBlock.EnabledWrite(prev, we)
+        prev = m[addrs[k - 1] if k else wa] if k < stages - 1 else m[addrs[stages - 1]]
+        mems.append(m)
+    _out(prev)
 
 
 @design
@@ -455,6 +483,8 @@ def family(tier='quick', seed=0):
     add('mem_sync')
     add('mem_two_writes')
     add('mem_feeds_logic')
+    add('mem_chain')
+    add('mem_chain', stages=2)
     add('mem_const_addr')
     add('mem_reg_ports')
     add('mem_readonly')
